@@ -257,7 +257,7 @@ def check_release(chk, prog, eff, cache, ctors, off, R="C04.release", RX="C04.re
         if t not in kinds:
             interior.add(t)
     must_free = {t for t in T.values() if t not in interior and kinds.get(t, set()) != {"null"}}
-    ps = cache.get("cbor_decref")
+    ps = cache.get("cbor_decref", inline_static=True)    # arms moved into static helpers are followed
     chk.floor(R, "paths of cbor_decref", len(ps), 15)
     seen_types = set()
     nz = 0
